@@ -109,6 +109,8 @@ def corpus():
         [time.struct_time((1999, 12, 31, 23, 59, 59, 4, 365, 0))], os.terminal_size((80, 24)), sys.float_info,
         pathlib.PurePosixPath('//fileserver/projects/' + 'segment/' * 9 + 'end'),
         # a contained internal failure under a trailing comment, then ordinary trailing comments on the same printers
+        # keys that cannot be ordered among each other: with sort_dict_keys=True the entry order must still be a function of the value
+        {1e16: float('-inf'), 'e': None, (1, 2): 3, None: 4, b'b': 5}, [{2: 'i', 'two': 's', (2,): 't'}, {('a', 1): 0, ('a', 'b'): 1}],
         # comments of several words that have to be wrapped (longer than any page width used), next to values that print one short comment
         [pp.comment('value', 'word ' * 30 + 'end'), 2], {'k': pp.comment([1], 'one two three four five six seven eight nine ten eleven twelve thirteen fourteen fifteen sixteen seventeen eighteen')},
         pp.comment(1, 'short'), [pp.comment(2, 'a b'), pp.comment(3, 'c')],
